@@ -8,6 +8,17 @@ COMMON_TB = [
 ]
 
 CHECKS = {
+    "C15": {
+        "id": "C15",
+        "engine": "wire",
+        "trusted_base": COMMON_TB + [
+            "modelled, not verified: std::str::from_utf8 (RFC 3629 validity, Utf8.valid; tied by corrupted / random byte strings), Vec / slices as lists, HashMap as the entry list in its iteration order (the order is an input; decoded maps are compared after last-wins deduplication and sorting)",
+            "the protocol glue of the driver and harness (type/value text syntax, canonicalisation of maps)",
+        ],
+        "level_text": "Proved in Lean over ALL histories: after any sequence of pushes (any arity, succeeding or failing at any inner element) and resets the body's bytes, signature and descriptor count are exactly the replay of the successful pushes since the last reset on an empty body (body_is_replay); a failed push leaves no trace; the rollback mechanism (truncate to the snapshot lengths) restores the snapshot from any state that merely extends it, and every marshaller only appends (push_only_appends, via marshalM = enc); the bytes/signature of a body built from values are the concatenated encodings/signatures (body_describes_pushed); a failed single, multi or dynamic get leaves the parser where it was; a successful get advances the signature index by exactly the type's signature and the byte index to exactly the end of the decoded value (which is the encoding of the returned value); asking for a type other than the next one of a valid signature is WrongSignature; builder->parser round trip for whole bodies. Tied by random histories over 16 builder operations (typed values, NUL strings, structs/arrays failing after partial output, push_param2..5 / push_params with a bad element at any position, push_variant, push_old_param(s) with a poisoned leaf, valid/taken descriptors incl. three of which the last is taken) observing buffer, signature, descriptor count and validate() after every operation, and parser histories over 14 get kinds on matching, mismatching and bit-flipped bodies; 'failed op leaves state unchanged', 'reset leaves nothing', 'body validates', 'no descriptor leaked' are checked directly on the implementation.",
+        "level_note": "Theorems are about the Lean model; a failing marshaller's partial output is modelled as an arbitrary extension of the three buffers (append-only writes; back-patching only touches bytes after the snapshot). Typed has_sig is modelled as equality with the printed signature (tied on the get menu; proved for the model in C16/C04).",
+        "assumptions": ["descriptors nested inside values are covered by C11; here they are top-level parameters"],
+    },
     "C19": {
         "id": "C19",
         "engine": "conn",
